@@ -4,75 +4,168 @@ WriteAheadLog with every sync policy), a BTree of small order (splits), a stand-
 into SSTables, a stand-alone WriteAheadLog (append / truncate / crash / recover) and a TransactionManager
 (each isolation level, conflicting multi-key transactions with think time) on top of the LSM tree or the BTree.
 Optional power-loss window (LSMTree.crash / recover_from_crash) and periodic CompactionTrigger events.
-Every component method is a generator that the clients `yield from` under the engine."""
+Every component method is a generator that the clients `yield from` under the engine.
+
+Widened configuration space (all new keys are read with `cfg.get`, old corpus cfgs keep building):
+  * `bank`: besides the primary instances, one extra LSMTree per *other* compaction strategy (each with a WAL of a
+    rotated sync policy), one extra WriteAheadLog per other sync policy, one extra TransactionManager per other
+    isolation level (one on its own BTree, one on its own default-constructed LSMTree); every l_* / w_app / txn
+    operation of a client is forwarded (same instant) to a Runner entity per extra instance, so one run exercises
+    every strategy / policy / level on the same operation stream;
+  * `disk`: a DiskIO entity with an HDD / SSD / NVMe profile (all profile parameters drawn) passed as `disk=` to
+    LSMTree, BTree and WriteAheadLog and driven directly by the d_rd / d_wr client operations (HDD draws its seek
+    jitter from the module-level `random`, which `seed_all` seeds — no seed is passed);
+  * `mem_lock`: an RWLock passed as `rwlock=` to the stand-alone Memtable, taken around m_put (write) / m_get (read);
+  * stand-alone SSTable probes with drawn `index_interval` / `bloom_fp_rate` / `level` / `sequence`;
+  * durations (`*_ms`) come from `dur_ms` (lossy values, sub-ms decimals, zero where the constructor accepts it,
+    latencies longer than inter-arrival times, sync interval longer than the run, crash / recover instants above
+    1 s that lose a nanosecond);
+  * sizes exceed the library's internal constants: SSTable `index_interval = 16` and the LSM page formula
+    `max(1, key_count // 16)` (memtables of 15 / 16 / 17 / 35 entries over key spaces up to 150), SyncOnBatch
+    batch of 1 and above the number of writes between flushes, `max_levels` 1 and the default 7;
+  * load regimes: light, sustained overload (arrival rate far above what the latencies serve), same-instant bursts.
+
+Known library exception (not a C07/C03 violation): LSMTree.crash() while a flush is in flight makes the resumed
+flush raise `ValueError: list.remove(x)`.  The crash is therefore postponed while a flush is in flight unless
+`crash_mid_flush` is set (rare)."""
 from __future__ import annotations
 
 import random
 
-from hv.scenarios.base import T, seed_all, stats_of, sub_seed
+from hv.scenarios.base import T, dur_ms, seed_all, stats_of, sub_seed
 
 NAME = "storage"
 MODEL = "C14"
 COMPONENTS = ["LSMTree", "SizeTieredCompaction", "LeveledCompaction", "FIFOCompaction", "WriteAheadLog",
               "SyncEveryWrite", "SyncPeriodic", "SyncOnBatch", "BTree", "Memtable", "SSTable",
-              "TransactionManager", "StorageTransaction", "IsolationLevel", "Source"]
+              "TransactionManager", "StorageTransaction", "IsolationLevel", "DiskIO", "HDD", "SSD", "NVMe",
+              "RWLock", "Source"]
 
 COMPACTIONS = ["size", "leveled", "fifo"]
 SYNCS = ["every", "periodic", "batch"]
 ISOLATIONS = ["READ_COMMITTED", "SNAPSHOT_ISOLATION", "SERIALIZABLE"]
 # client operations: lsm put/get/delete/scan, btree put/get/delete/scan, memtable put/get, wal append, txn
 OPS = ["l_put", "l_get", "l_del", "l_scan", "b_put", "b_get", "b_del", "b_scan", "m_put", "m_get", "w_app", "txn"]
+# added operations (weights in cfg["w2"]): disk read / write through DiskIO, WAL append_sync
+OPS2 = ["d_rd", "d_wr", "w_sync"]
+INDEX_INTERVAL = 16      # SSTable default index_interval; LSMTree charges max(1, key_count // 16) pages per flush
+
+
+def _gen_disk(rng):
+    kind = rng.choice(["hdd", "ssd", "nvme"])
+    if kind == "hdd":
+        return {"kind": kind, "seek_ms": dur_ms(rng, 0.1, 12, zero=True), "rot_ms": dur_ms(rng, 0.1, 6, zero=True),
+                "mbps": rng.choice([1, 50, 150, 400]), "qd_penalty": rng.choice([0, 0.1, 0.3, 1.0])}
+    if kind == "ssd":
+        return {"kind": kind, "read_ms": dur_ms(rng, 0.01, 2, zero=True), "write_ms": dur_ms(rng, 0.01, 4, zero=True),
+                "mbps": rng.choice([5, 100, 550, 2000]), "qd_factor": rng.choice([0, 0.15, 0.5, 2.0])}
+    return {"kind": kind, "read_ms": dur_ms(rng, 0.01, 1, zero=True), "write_ms": dur_ms(rng, 0.01, 2, zero=True),
+            "mbps": rng.choice([10, 500, 3500, 7000]), "native_qd": rng.choice([1, 2, 4, 32]),
+            "overflow": rng.choice([0, 0.05, 0.5])}
 
 
 def gen_cfg(rng):
-    n_clients = rng.randint(3, 6)
-    n_keys = rng.choice([6, 12, 24, 40])
+    # load regime
+    regime = rng.choices(["light", "overload", "long"], weights=[62, 26, 12])[0]
+    bank = rng.random() < 0.7
+    if regime == "long":
+        end = rng.choice([8.0, 10.0, 12.0])
+        n_clients = rng.randint(2, 4)
+        rates = [8, 15, 25]
+    elif regime == "overload":
+        end = rng.choice([2.0, 3.0])
+        n_clients = rng.randint(2, 3)
+        rates = [120, 200, 350]
+    else:
+        end = rng.choice([2.0, 3.0, 4.0])
+        n_clients = rng.randint(3, 6)
+        rates = [20, 40, 60, 100]
+    if bank:
+        rates = [max(5, r * 2 // 3) for r in rates]
+    n_keys = rng.choice([6, 12, 24, 40]) if rng.random() < 0.55 else rng.choice([15, 16, 17, 33, 48, 100, 150])
+
+    def mem_size():
+        # around / above the SSTable index interval (16) and the LSM page formula key_count // 16
+        # (a flush / compaction output of >= 32 keys costs more than one page)
+        if n_keys > 33 and rng.random() < 0.3:
+            s = rng.choice([31, 32, 33, 35, 47])
+        else:
+            s = rng.choice([2, 3, 4, 6, 8]) if rng.random() < 0.6 else rng.choice([15, 16, 17, 26, 35])
+        return max(1, min(s, n_keys - 1))
+
+    disk = _gen_disk(rng) if rng.random() < 0.5 else None
+    bursts = []
+    if rng.random() < 0.4:
+        for _ in range(rng.randint(1, 3)):
+            bursts.append([dur_ms(rng, 50, min(2600, end * 1000 - 600)), rng.choice([5, 20, 60]),
+                           rng.randrange(n_clients)])
     return {
-        "end": rng.choice([2.0, 3.0, 4.0]),
+        "end": end,
+        "regime": regime,
+        "bank": bank,
+        "sync_rot": rng.randrange(3),
         "n_keys": n_keys,
         "n_clients": n_clients,
-        "clients": [{"rate": rng.choice([20, 40, 60, 100]), "poisson": rng.random() < 0.5}
-                    for _ in range(n_clients)],
+        "clients": [{"rate": rng.choice(rates), "poisson": rng.random() < 0.5} for _ in range(n_clients)],
+        "bursts": bursts,
         "w": [rng.randint(2, 8), rng.randint(2, 8), rng.randint(0, 4), rng.randint(0, 3),
               rng.randint(1, 6), rng.randint(1, 6), rng.randint(0, 3), rng.randint(0, 3),
               rng.randint(0, 4), rng.randint(0, 3), rng.randint(0, 3), rng.randint(1, 6)],
+        "w2": [rng.randint(0, 3) if disk else 0, rng.randint(0, 3) if disk else 0, rng.randint(0, 2)],
         # lsm
-        "memtable": rng.randint(2, min(8, n_keys - 1)),
+        "memtable": mem_size(),
+        "memtable2": mem_size(),
         "compaction": rng.choice(COMPACTIONS),
-        "min_sst": rng.randint(2, 4),
-        "l0_max": rng.randint(2, 3),
-        "ratio": rng.randint(2, 3),
-        "base_keys": rng.choice([4, 8, 16]),
-        "fifo_max": rng.randint(2, 5),
-        "max_levels": rng.randint(2, 4),
-        "sst_read_ms": rng.randint(1, 5),
-        "sst_write_ms": rng.randint(1, 10),
+        "min_sst": rng.choice([1, 2, 2, 3, 4, 5]),
+        "l0_max": rng.randint(1, 4),
+        "ratio": rng.choice([1, 2, 3, 10]),
+        "base_keys": rng.choice([1, 4, 8, 16, 1000]),
+        "fifo_max": rng.choice([1, 2, 3, 5, 100]),
+        "max_levels": rng.choice([1, 2, 3, 4, 7]),
+        "sst_read_ms": dur_ms(rng, 0.05, 8, zero=True),
+        "sst_write_ms": dur_ms(rng, 0.1, 40, zero=True),
         "lsm_wal": rng.random() < 0.75,
         "sync": rng.choice(SYNCS),
-        "sync_interval_ms": rng.choice([5, 20, 100]),
-        "sync_batch": rng.randint(2, 6),
-        "wal_write_ms": rng.randint(1, 3),
-        "wal_sync_ms": rng.randint(1, 8),
-        "trigger_rate": rng.choice([0, 0, 5, 20]),
-        "crash": [rng.randint(400, 1200), rng.randint(1, 60)] if rng.random() < 0.35 else None,
+        # shorter than a write, around the inter-arrival time, longer than the whole run
+        "sync_interval_ms": dur_ms(rng, 0.5, 1500) if rng.random() < 0.85 else dur_ms(rng, 2000, 15000),
+        "sync_batch": rng.choice([1, 2, 3, 6, 20, 64]),
+        "wal_write_ms": dur_ms(rng, 0.02, 5, zero=True),
+        "wal_sync_ms": dur_ms(rng, 0.1, 30, zero=True),
+        # period of the CompactionTrigger source (None: none); `trigger_rate` is the old whole-Hz key
+        "trigger_rate": 0,
+        "trigger_ms": dur_ms(rng, 15, 1300) if rng.random() < 0.5 else None,
+        "crash": [dur_ms(rng, 300, min(2600, end * 1000 - 500)), dur_ms(rng, 0.5, 400, zero=True)]
+        if rng.random() < 0.3 else None,
+        "crash_mid_flush": rng.random() < 0.1,
+        # disk
+        "disk": disk,
+        "disk_sizes": [rng.choice([1, 512, 4096]), rng.choice([4096, 65536, 1048576])],
         # btree
-        "order": rng.randint(3, 6),
-        "page_read_ms": rng.randint(1, 3),
-        "page_write_ms": rng.randint(1, 5),
+        "order": rng.choice([3, 3, 4, 5, 6, 16, 128]),
+        "page_read_ms": dur_ms(rng, 0.05, 4, zero=True),
+        "page_write_ms": dur_ms(rng, 0.05, 12, zero=True),
         # stand-alone memtable / wal
-        "mem_size": rng.randint(3, min(6, n_keys - 1)),
-        "mem_lat_ms": rng.randint(1, 3),
+        "mem_size": mem_size(),
+        "mem_lat_ms": dur_ms(rng, 0.01, 4, zero=True),
+        "mem_read_ms": dur_ms(rng, 0.005, 6, zero=True),
+        "mem_lock": rng.choice([None, None, 0, 1, 2]),    # None: no RWLock; 0: unlimited readers; n: max_readers
         "sync2": rng.choice(SYNCS),
-        "wal2_truncate_every": rng.choice([0, 7, 15]),
-        "wal2_crash_ms": rng.choice([None, 700, 1300]),
+        "wal2_truncate_every": rng.choice([0, 1, 7, 15]),
+        "wal2_crash_ms": rng.choice([None, dur_ms(rng, 200, min(2600, end * 1000 - 300))]),
+        # stand-alone SSTable probes
+        "sst_probe": {"period_ms": dur_ms(rng, 40, 1400), "index_interval": rng.choice([1, 2, 15, 16, 17, 64]),
+                      "fp_rate": rng.choice([0.001, 0.01, 0.25, 0.5, 0.99]), "n": rng.choice([0, 1, 15, 16, 17, 40])}
+        if rng.random() < 0.6 else None,
         # transactions
         "tx_store": rng.choice(["lsm", "btree"]),
         "isolation": rng.choice(ISOLATIONS),
+        "deadlock_detection": rng.random() < 0.5,
         "tx_override": rng.random() < 0.3,
+        "tx_sync_pct": rng.choice([0, 0, 30, 100]),
         "tx_keys": rng.randint(1, 4),
-        "tx_hot": rng.randint(2, 5),
-        "tx_think_ms": rng.randint(0, 30),
-        "tx_abort_pct": rng.choice([0, 10, 30]),
+        "tx_hot": rng.randint(1, 5),
+        "tx_think_ms": dur_ms(rng, 0.1, 150, zero=True) if rng.random() < 0.8 else 0,
+        "tx_abort_pct": rng.choice([0, 10, 30, 100]),
     }
 
 
@@ -86,15 +179,33 @@ def _sync_policy(kind, cfg):
     return SyncOnBatch(batch_size=cfg["sync_batch"])
 
 
-def _compaction(cfg):
+def _compaction(cfg, kind=None):
     from happysimulator.components.storage import FIFOCompaction, LeveledCompaction, SizeTieredCompaction
 
-    c = cfg["compaction"]
+    c = kind or cfg["compaction"]
     if c == "size":
         return SizeTieredCompaction(min_sstables=cfg["min_sst"])
     if c == "leveled":
         return LeveledCompaction(level_0_max=cfg["l0_max"], size_ratio=cfg["ratio"], base_size_keys=cfg["base_keys"])
     return FIFOCompaction(max_total_sstables=cfg["fifo_max"])
+
+
+def _disk(d):
+    from happysimulator.components.infrastructure.disk_io import HDD, SSD, NVMe, DiskIO
+
+    if d is None:
+        return None
+    if d["kind"] == "hdd":
+        prof = HDD(seek_time_s=d["seek_ms"] / 1000.0, rotational_latency_s=d["rot_ms"] / 1000.0,
+                   transfer_rate_mbps=float(d["mbps"]), queue_depth_penalty=d["qd_penalty"])
+    elif d["kind"] == "ssd":
+        prof = SSD(base_read_latency_s=d["read_ms"] / 1000.0, base_write_latency_s=d["write_ms"] / 1000.0,
+                   transfer_rate_mbps=float(d["mbps"]), queue_depth_factor=d["qd_factor"])
+    else:
+        prof = NVMe(base_read_latency_s=d["read_ms"] / 1000.0, base_write_latency_s=d["write_ms"] / 1000.0,
+                    transfer_rate_mbps=float(d["mbps"]), native_queue_depth=d["native_qd"],
+                    overflow_penalty=d["overflow"])
+    return DiskIO("disk", profile=prof)
 
 
 def build(cfg, seed):
@@ -103,9 +214,12 @@ def build(cfg, seed):
         IsolationLevel,
         LSMTree,
         Memtable,
+        SSTable,
+        StorageTransaction,
         TransactionManager,
         WriteAheadLog,
     )
+    from happysimulator.components.sync import RWLock
     from happysimulator.core.entity import Entity
     from happysimulator.core.event import Event
     from happysimulator.core.simulation import Simulation
@@ -116,27 +230,142 @@ def build(cfg, seed):
     end = cfg["end"]
     stop = end - 0.5
     nk = cfg["n_keys"]
+    bank = cfg.get("bank", False)
+    LEVELS = {"READ_COMMITTED": IsolationLevel.READ_COMMITTED,
+              "SNAPSHOT_ISOLATION": IsolationLevel.SNAPSHOT_ISOLATION,
+              "SERIALIZABLE": IsolationLevel.SERIALIZABLE}
+    weights = list(cfg["w"]) + list(cfg.get("w2", [0] * len(OPS2)))
+    all_ops = OPS + OPS2
 
     def key(i):
         return f"user-{i % nk}"
 
+    disk = _disk(cfg.get("disk"))
+    wal_w, wal_s = cfg["wal_write_ms"] / 1000.0, cfg["wal_sync_ms"] / 1000.0
+    sst_r, sst_w = cfg["sst_read_ms"] / 1000.0, cfg["sst_write_ms"] / 1000.0
+
     wal = None
     if cfg["lsm_wal"]:
-        wal = WriteAheadLog("wal", sync_policy=_sync_policy(cfg["sync"], cfg),
-                            write_latency=cfg["wal_write_ms"] / 1000.0, sync_latency=cfg["wal_sync_ms"] / 1000.0)
-    lsm = LSMTree("db", memtable_size=cfg["memtable"], compaction_strategy=_compaction(cfg), wal=wal,
-                  sstable_read_latency=cfg["sst_read_ms"] / 1000.0, sstable_write_latency=cfg["sst_write_ms"] / 1000.0,
-                  max_levels=cfg["max_levels"])
-    btree = BTree("idx", order=cfg["order"], page_read_latency=cfg["page_read_ms"] / 1000.0,
+        wal = WriteAheadLog("wal", sync_policy=_sync_policy(cfg["sync"], cfg), disk=disk,
+                            write_latency=wal_w, sync_latency=wal_s)
+    lsm = LSMTree("db", memtable_size=cfg["memtable"], compaction_strategy=_compaction(cfg), wal=wal, disk=disk,
+                  sstable_read_latency=sst_r, sstable_write_latency=sst_w, max_levels=cfg["max_levels"])
+    btree = BTree("idx", order=cfg["order"], disk=disk, page_read_latency=cfg["page_read_ms"] / 1000.0,
                   page_write_latency=cfg["page_write_ms"] / 1000.0)
+    ml = cfg.get("mem_lock")
+    mem_lock = None if ml is None else RWLock("mem-lock", max_readers=ml or None)
+    mem_read = cfg["mem_read_ms"] / 1000.0 if "mem_read_ms" in cfg else cfg["mem_lat_ms"] / 2000.0
     mem = Memtable("mem", size_threshold=cfg["mem_size"], write_latency=cfg["mem_lat_ms"] / 1000.0,
-                   read_latency=cfg["mem_lat_ms"] / 2000.0)
-    wal2 = WriteAheadLog("wal2", sync_policy=_sync_policy(cfg["sync2"], cfg),
-                         write_latency=cfg["wal_write_ms"] / 1000.0, sync_latency=cfg["wal_sync_ms"] / 1000.0)
+                   read_latency=mem_read, rwlock=mem_lock)
+    wal2 = WriteAheadLog("wal2", sync_policy=_sync_policy(cfg["sync2"], cfg), write_latency=wal_w, sync_latency=wal_s)
     txm = TransactionManager("txm", store=lsm if cfg["tx_store"] == "lsm" else btree,
-                             isolation=IsolationLevel[cfg["isolation"]])
+                             isolation=LEVELS[cfg["isolation"]],
+                             deadlock_detection=cfg.get("deadlock_detection", True))
+
+    # ---- bank of the other variants (own instances, fed by the same client operations)
+    x_lsms, x_wals, x_txms, x_entities = [], [], [], []
+    if bank:
+        rot = cfg.get("sync_rot", 0)
+        for j, c in enumerate(k for k in COMPACTIONS if k != cfg["compaction"]):
+            sk = SYNCS[(j + rot) % 3]
+            w = WriteAheadLog(f"wal-{c}", sync_policy=_sync_policy(sk, cfg), disk=disk if j else None,
+                              write_latency=wal_w, sync_latency=wal_s)
+            t = LSMTree(f"db-{c}", memtable_size=cfg.get("memtable2", cfg["memtable"]),
+                        compaction_strategy=_compaction(cfg, c), wal=w, sstable_read_latency=sst_r,
+                        sstable_write_latency=sst_w, max_levels=cfg["max_levels"])
+            x_lsms.append(t)
+            x_entities += [w, t]
+        for sk in (s for s in SYNCS if s != cfg["sync2"]):
+            w = WriteAheadLog(f"wal2-{sk}", sync_policy=_sync_policy(sk, cfg), write_latency=wal_w, sync_latency=wal_s)
+            x_wals.append(w)
+            x_entities.append(w)
+        for j, iso in enumerate(i for i in ISOLATIONS if i != cfg["isolation"]):
+            if j == 0:
+                st = BTree(f"idx-{iso}", order=cfg["order"], page_read_latency=cfg["page_read_ms"] / 1000.0,
+                           page_write_latency=cfg["page_write_ms"] / 1000.0)
+            else:
+                st = LSMTree(f"db-{iso}", memtable_size=cfg["memtable"])     # everything else at its default
+            m = TransactionManager(f"txm-{iso}", st, LEVELS[iso], not cfg.get("deadlock_detection", True))
+            x_txms.append(m)
+            x_entities += [st, m]
+
     sstables = []        # SSTables produced by flushing the stand-alone memtable (newest last)
     shared = {"mem_flushes": 0, "wal2_truncs": 0, "sst_hits": 0, "sst_bloom_skips": 0}
+
+    def short(r):
+        return [[x, y if isinstance(y, (str, int, float)) or y is None else type(y).__name__] for x, y in r[:40]]
+
+    def lsm_op(tree, op, c):
+        """one l_* operation on `tree`; returns the loggable result"""
+        if op == "l_put":
+            yield from tree.put(c["k"], c["val"])
+            return c["val"]
+        if op == "l_get":
+            return (yield from tree.get(c["k"]))
+        if op == "l_del":
+            yield from tree.delete(c["k"])
+            return None
+        r = yield from tree.scan(c["a"], c["b"])
+        return short(r)
+
+    def run_txn(mgr, rng, stats):
+        iso = None
+        if cfg["tx_override"] and rng.random() < 0.5:
+            iso = LEVELS[rng.choice(ISOLATIONS)]
+        if rng.randrange(100) < cfg.get("tx_sync_pct", 0):
+            tx = mgr.begin_sync(iso)
+        else:
+            tx = yield from mgr.begin(iso)
+        assert isinstance(tx, StorageTransaction)
+        hot = cfg["tx_hot"]
+        reads = []
+        for j in range(cfg["tx_keys"]):
+            kk = f"user-{rng.randrange(hot) % nk}"
+            r = yield from tx.read(kk)
+            reads.append([kk, r])
+        if cfg["tx_think_ms"]:
+            yield cfg["tx_think_ms"] / 1000.0
+        for j in range(rng.randint(1, cfg["tx_keys"])):
+            kk = f"user-{rng.randrange(hot) % nk}"
+            yield from tx.write(kk, f"t{tx.tx_id}.{j}")
+        if rng.randrange(100) < cfg["tx_abort_pct"]:
+            tx.abort()
+            stats["aborts"] += 1
+            return "abort", reads
+        ok = yield from tx.commit()
+        stats["commits" if ok else "conflicts"] += 1
+        return ("commit" if ok else "conflict"), reads
+
+    class Runner(Entity):
+        """applies the operations forwarded by the clients to one extra instance of the bank"""
+
+        def __init__(self, name, inst, kind):
+            super().__init__(name)
+            self.inst = inst
+            self.kind = kind
+            self.rng = random.Random(sub_seed(seed, "runner", name))
+            self.n = 0
+            self.done = 0
+            self.log = []
+            self.tx = {"commits": 0, "aborts": 0, "conflicts": 0}
+
+        def handle_event(self, event):
+            c = event.context
+            self.n += 1
+            if self.kind == "lsm":
+                r = yield from lsm_op(self.inst, c["op"], c)
+            elif self.kind == "wal":
+                r = yield from self.inst.append(c["k"], c["val"])
+            else:
+                r = yield from run_txn(self.inst, self.rng, self.tx)
+                r = [r[0], r[1]]
+            self.done += 1
+            if len(self.log) < 150:
+                self.log.append([c["op"], c.get("k"), r])
+
+    runners = {"lsm": [Runner(f"run-{t.name}", t, "lsm") for t in x_lsms],
+               "wal": [Runner(f"run-{w.name}", w, "wal") for w in x_wals],
+               "txn": [Runner(f"run-{m.name}", m, "txn") for m in x_txms]}
 
     class Client(Entity):
         def __init__(self, i):
@@ -145,36 +374,37 @@ def build(cfg, seed):
             self.rng = random.Random(sub_seed(seed, "client", i))
             self.n = 0
             self.done = 0
-            self.ops = {op: 0 for op in OPS}
+            self.ops = {op: 0 for op in all_ops}
             self.log = []
-            self.commits = self.aborts = self.conflicts = 0
+            self.tx = {"commits": 0, "aborts": 0, "conflicts": 0}
 
         def note(self, op, k, res):
             self.done += 1
             if len(self.log) < 400:
                 self.log.append([op, k, res])
 
+        def forward(self, kind, ctx):
+            return [Event(time=self.now, event_type="Op", target=r, context=dict(ctx)) for r in runners[kind]]
+
         def handle_event(self, event):
             self.n += 1
             rng = self.rng
-            op = rng.choices(OPS, weights=cfg["w"])[0]
+            op = rng.choices(all_ops, weights=weights)[0]
             self.ops[op] += 1
             k = key(rng.randrange(nk))
             val = f"v{self.i}.{self.n}"
-            if op == "l_put":
-                yield from lsm.put(k, val)
-                self.note(op, k, val)
-            elif op == "l_get":
-                r = yield from lsm.get(k)
-                self.note(op, k, r)
-            elif op == "l_del":
-                yield from lsm.delete(k)
-                self.note(op, k, None)
-            elif op == "l_scan":
-                lo = rng.randrange(nk)
-                a, b = sorted([key(lo), key(lo + rng.randint(1, 9))])
-                r = yield from lsm.scan(a, b)
-                self.note(op, a, [[x, y] for x, y in r])
+            if op in ("l_put", "l_get", "l_del", "l_scan"):
+                ctx = {"op": op, "k": k, "val": val}
+                if op == "l_scan":
+                    lo = rng.randrange(nk)
+                    ctx["a"], ctx["b"] = sorted([key(lo), key(lo + rng.randint(1, 9))])
+                    ctx["k"] = ctx["a"]
+                # the copies for the other LSM variants leave at the same instant as the primary operation starts
+                fw = self.forward("lsm", ctx)
+                if fw:
+                    yield 0.0, fw
+                r = yield from lsm_op(lsm, op, ctx)
+                self.note(op, ctx["k"], r)
             elif op == "b_put":
                 yield from btree.put(k, val)
                 self.note(op, k, val)
@@ -188,82 +418,111 @@ def build(cfg, seed):
                 lo = rng.randrange(nk)
                 a, b = sorted([key(lo), key(lo + rng.randint(1, 9))])
                 r = yield from btree.scan(a, b)
-                self.note(op, a, [[x, y] for x, y in r])
+                self.note(op, a, short(r))
             elif op == "m_put":
+                if mem_lock is not None:
+                    yield from mem_lock.acquire_write()
                 full = yield from mem.put(k, val)
                 if full and mem.is_full:
                     sstables.append(mem.flush())
+                    del sstables[:-12]
                     shared["mem_flushes"] += 1
+                if mem_lock is not None:
+                    mem_lock.release_write()
                 self.note(op, k, full)
             elif op == "m_get":
+                if mem_lock is not None:
+                    yield from mem_lock.acquire_read()
                 r = yield from mem.get(k)
+                if mem_lock is not None:
+                    mem_lock.release_read()
                 if r is None:
-                    for sst in reversed(sstables):
+                    for sst in reversed(list(sstables)):
                         if not sst.contains(k):
                             shared["sst_bloom_skips"] += 1
                             continue
                         pages = sst.page_reads_for_get(k)
-                        yield pages * cfg["sst_read_ms"] / 1000.0
+                        yield pages * sst_r
                         r = sst.get(k)
                         if r is not None:
                             shared["sst_hits"] += 1
                             break
                 self.note(op, k, r)
             elif op == "w_app":
+                fw = self.forward("wal", {"op": op, "k": k, "val": val})
+                if fw:
+                    yield 0.0, fw
                 seq = yield from wal2.append(k, val)
                 te = cfg["wal2_truncate_every"]
                 if te and seq % te == 0:
                     wal2.truncate(min(seq - 2, wal2.synced_up_to))
                     shared["wal2_truncs"] += 1
                 self.note(op, k, seq)
+            elif op == "w_sync":
+                seq = wal2.append_sync(k, val)
+                self.note(op, k, seq)
+                return None
+            elif op == "d_rd":
+                if disk is not None:
+                    yield from disk.read(cfg["disk_sizes"][rng.randrange(2)])
+                self.note(op, k, disk.queue_depth if disk is not None else None)
+            elif op == "d_wr":
+                if disk is not None:
+                    yield from disk.write(cfg["disk_sizes"][rng.randrange(2)])
+                self.note(op, k, disk.queue_depth if disk is not None else None)
             else:
-                yield from self.txn(rng)
-
-        def txn(self, rng):
-            iso = None
-            if cfg["tx_override"] and rng.random() < 0.5:
-                iso = IsolationLevel[rng.choice(ISOLATIONS)]
-            tx = yield from txm.begin(iso)
-            hot = cfg["tx_hot"]
-            reads = []
-            for j in range(cfg["tx_keys"]):
-                kk = f"user-{rng.randrange(hot) % nk}"
-                r = yield from tx.read(kk)
-                reads.append([kk, r])
-            if cfg["tx_think_ms"]:
-                yield cfg["tx_think_ms"] / 1000.0
-            for j in range(rng.randint(1, cfg["tx_keys"])):
-                kk = f"user-{rng.randrange(hot) % nk}"
-                yield from tx.write(kk, f"t{tx.tx_id}.{j}")
-            if rng.randrange(100) < cfg["tx_abort_pct"]:
-                tx.abort()
-                self.aborts += 1
-                self.note("txn", "abort", reads)
-                return
-            ok = yield from tx.commit()
-            if ok:
-                self.commits += 1
-            else:
-                self.conflicts += 1
-            self.note("txn", "commit" if ok else "conflict", reads)
+                fw = self.forward("txn", {"op": op})
+                if fw:
+                    yield 0.0, fw
+                res, reads = yield from run_txn(txm, rng, self.tx)
+                self.note("txn", res, reads)
 
     class Admin(Entity):
         def __init__(self):
             super().__init__("admin")
             self.reports = []
+            self.rng = random.Random(sub_seed(seed, "admin"))
+            self.defer = 0
 
         def handle_event(self, event):
             op = event.event_type
             if op == "crash":
-                self.reports.append(["crash", lsm.crash()])
-            elif op == "recover":
-                self.reports.append(["recover", lsm.recover_from_crash()])
+                # known library exception: crash() while a flush is in flight -> the resumed flush raises ValueError
+                busy = any(getattr(t, "_immutable_memtables", None) for t in [lsm, *x_lsms])
+                if busy and not cfg.get("crash_mid_flush", True) and self.defer < 400:
+                    self.defer += 1
+                    return [Event(time=self.now + 0.0007, event_type="crash", target=self)]
+                self.reports.append(["crash", self.now.nanoseconds, [t.crash() for t in [lsm, *x_lsms]]])
+                if "crash_mid_flush" not in cfg:      # old shape: the recover event was scheduled up front
+                    return []
+                return [Event(time=self.now + cfg["crash"][1] / 1000.0, event_type="recover", target=self)]
+            if op == "recover":
+                self.reports.append(["recover", self.now.nanoseconds,
+                                     [t.recover_from_crash() for t in [lsm, *x_lsms]]])
             elif op == "wal2_crash":
-                lost = wal2.crash()
-                rec = wal2.recover()
-                self.reports.append(["wal2", {"lost": lost, "recovered": len(rec),
-                                              "last": [rec[-1].sequence_number, rec[-1].key, rec[-1].timestamp_s]
-                                              if rec else None}])
+                for w in [wal2, *x_wals]:
+                    lost = w.crash()
+                    rec = w.recover()
+                    self.reports.append([w.name, {"lost": lost, "recovered": len(rec),
+                                                  "last": [rec[-1].sequence_number, rec[-1].key, rec[-1].timestamp_s]
+                                                  if rec else None}])
+            elif op == "sst_probe":
+                p = cfg["sst_probe"]
+                r = self.rng
+                data = [(key(r.randrange(nk)), f"s{j}") for j in range(p["n"])]
+                data = list(dict(data).items())
+                a = SSTable(data, index_interval=p["index_interval"], bloom_fp_rate=p["fp_rate"],
+                            level=r.randrange(3), sequence=len(self.reports))
+                b = sstables[-1] if sstables and r.random() < 0.5 else SSTable(
+                    data[: len(data) // 2], index_interval=p["index_interval"], bloom_fp_rate=p["fp_rate"])
+                probe = [key(r.randrange(nk)) for _ in range(4)] + ["zzz"]
+                lo, hi = sorted([key(r.randrange(nk)), key(r.randrange(nk))])
+                self.reports.append(["sst", len(a), a.level, a.sequence, a.min_key, a.max_key, a.overlaps(b),
+                                     b.overlaps(a), [[q, a.contains(q), a.get(q), a.page_reads_for_get(q)]
+                                                     for q in probe],
+                                     [list(x) for x in a.scan(lo, hi)][:20], a.page_reads_for_scan(lo, hi),
+                                     a.page_reads_for_scan(), a.stats.index_entries, a.stats.bloom_filter_size_bits,
+                                     a.stats.bloom_filter_fp_rate, a.bloom_filter.num_hashes, repr(a)])
             return []
 
     clients = [Client(i) for i in range(cfg["n_clients"])]
@@ -272,22 +531,38 @@ def build(cfg, seed):
     for i, c in enumerate(cfg["clients"]):
         mk = Source.poisson if c["poisson"] else Source.constant
         sources.append(mk(rate=c["rate"], target=clients[i], event_type="Tick", name=f"src-{i}", stop_after=stop))
-    if cfg["trigger_rate"]:
-        sources.append(Source.constant(rate=cfg["trigger_rate"], target=lsm, event_type="CompactionTrigger",
-                                       name="src-compact", stop_after=end - 0.1))
-    entities = [lsm, btree, mem, wal2, txm, admin, *clients]
+    trig = 1000.0 / cfg["trigger_ms"] if cfg.get("trigger_ms") else cfg["trigger_rate"]
+    if trig:
+        for t in [lsm, *x_lsms]:
+            sources.append(Source.constant(rate=trig, target=t, event_type="CompactionTrigger",
+                                           name=f"src-compact-{t.name}" if t is not lsm else "src-compact",
+                                           stop_after=end - 0.1))
+    if cfg.get("sst_probe"):
+        sources.append(Source.constant(rate=1000.0 / cfg["sst_probe"]["period_ms"], target=admin,
+                                       event_type="sst_probe", name="src-probe", stop_after=end - 0.1))
+    entities = [lsm, btree, mem, wal2, txm, admin, *clients, *x_entities]
+    for rs in runners.values():
+        entities += rs
     if wal is not None:
         entities.insert(0, wal)
+    if disk is not None:
+        entities.append(disk)
+    if mem_lock is not None:
+        entities.append(mem_lock)
     sim = Simulation(end_time=T(end), sources=sources, entities=entities)
 
-    def at(ms, typ):
-        sim.schedule(Event(time=Instant.from_seconds(ms / 1000.0), event_type=typ, target=admin))
+    def at(ms, typ, target=admin):
+        sim.schedule(Event(time=Instant.from_seconds(ms / 1000.0), event_type=typ, target=target))
 
     if cfg["crash"]:
         at(cfg["crash"][0], "crash")
-        at(cfg["crash"][0] + cfg["crash"][1], "recover")
+        if "crash_mid_flush" not in cfg:          # old shape: the recover instant is scheduled up front
+            at(cfg["crash"][0] + cfg["crash"][1], "recover")
     if cfg["wal2_crash_ms"] is not None:
         at(cfg["wal2_crash_ms"], "wal2_crash")
+    for t_ms, n, ci in cfg.get("bursts", []):
+        for _ in range(n):
+            at(t_ms, "Tick", clients[ci % len(clients)])
 
     def wal_obs(w):
         def read():
@@ -295,12 +570,14 @@ def build(cfg, seed):
                     "entries": [[e.sequence_number, e.key, e.timestamp_s] for e in w.recover()][-20:]}
         return read
 
-    def lsm_contents():
-        out = []
-        for i in range(nk):
-            v = lsm.get_sync(key(i))
-            out.append([key(i), v if (v is None or isinstance(v, (str, int, float))) else type(v).__name__])
-        return out
+    def contents(store):
+        def read():
+            out = []
+            for i in range(nk):
+                v = store.get_sync(key(i))
+                out.append([key(i), v if (v is None or isinstance(v, (str, int, float))) else type(v).__name__])
+            return out
+        return read
 
     obs = {
         "a.lsm": stats_of(lsm),
@@ -315,17 +592,42 @@ def build(cfg, seed):
         "b.wal2.x": wal_obs(wal2),
         "b.sstables": lambda: [[s.key_count, s.size_bytes, s.min_key, s.max_key, s.sequence, s.level,
                                 s.stats.index_entries, s.stats.bloom_filter_size_bits,
-                                s.stats.bloom_filter_fp_rate, [[a, b] for a, b in s.scan()]] for s in sstables],
+                                s.stats.bloom_filter_fp_rate, [[a, b] for a, b in s.scan()][:40]] for s in sstables],
         "b.shared": lambda: dict(shared),
-        "b.admin": lambda: admin.reports,
+        "b.admin": lambda: admin.reports[:60] + admin.reports[-5:],
         # final contents are read last (get_sync bumps the read counters)
-        "z.lsm.contents": lsm_contents,
-        "z.btree.contents": lambda: [[key(i), btree.get_sync(key(i))] for i in range(nk)],
+        "z.lsm.contents": contents(lsm),
+        "z.btree.contents": contents(btree),
     }
     if wal is not None:
         obs["a.wal"] = stats_of(wal)
         obs["b.wal.x"] = wal_obs(wal)
+    if disk is not None:
+        obs["a.disk"] = stats_of(disk)
+        obs["a.disk.x"] = lambda: {"qd": disk.queue_depth, "avg_r": disk.stats.avg_read_latency_s,
+                                   "avg_w": disk.stats.avg_write_latency_s, "repr": repr(disk)}
+    if mem_lock is not None:
+        obs["a.mem_lock"] = stats_of(mem_lock)
+        obs["a.mem_lock.x"] = lambda: {"readers": mem_lock.active_readers, "w": mem_lock.is_write_locked,
+                                       "max": mem_lock.max_readers}
+    for t in x_lsms:
+        obs[f"x.{t.name}"] = stats_of(t)
+        obs[f"x.{t.name}.levels"] = (lambda t=t: t.level_summary)
+        obs[f"z.{t.name}.contents"] = contents(t)
+        obs[f"x.{t._wal.name}"] = stats_of(t._wal)
+        obs[f"x.{t._wal.name}.x"] = wal_obs(t._wal)
+    for w in x_wals:
+        obs[f"x.{w.name}"] = stats_of(w)
+        obs[f"x.{w.name}.x"] = wal_obs(w)
+    for m in x_txms:
+        obs[f"x.{m.name}"] = stats_of(m)
+        obs[f"x.{m.name}.active"] = (lambda m=m: m.active_transactions)
+        obs[f"x.{m.name}.store"] = stats_of(m._store)
+        obs[f"z.{m.name}.contents"] = contents(m._store)
+    for rs in runners.values():
+        for r in rs:
+            obs["r." + r.name] = (lambda r=r: {"n": r.n, "done": r.done, "tx": r.tx, "log": r.log})
     for c in clients:
-        obs["c." + c.name] = (lambda c=c: {"n": c.n, "done": c.done, "ops": c.ops, "commits": c.commits,
-                                           "aborts": c.aborts, "conflicts": c.conflicts, "log": c.log})
+        obs["c." + c.name] = (lambda c=c: {"n": c.n, "done": c.done, "ops": c.ops, "commits": c.tx["commits"],
+                                           "aborts": c.tx["aborts"], "conflicts": c.tx["conflicts"], "log": c.log})
     return sim, obs
